@@ -41,11 +41,15 @@ import (
 	"go/token"
 	"go/types"
 	"os"
+	"regexp"
 	"sort"
+	"strconv"
 	"strings"
 
 	"golang.org/x/tools/go/packages"
 )
+
+var inlNameRe = regexp.MustCompile(`\binl(\d+)[ARLS]`)
 
 type inlineSite struct {
 	file string
@@ -147,6 +151,12 @@ func normalise(pkgs []*packages.Package, overlay map[string][]byte, readFile fun
 			} else if b, err := readFile(fn); err == nil {
 				n.src[fn] = b
 			}
+			// temporaries of an earlier round keep their names: number on from the highest one in use
+			for _, m := range inlNameRe.FindAllSubmatch(n.src[fn], -1) {
+				if k, err := strconv.Atoi(string(m[1])); err == nil && k > n.seq {
+					n.seq = k
+				}
+			}
 			var stack []ast.Node
 			ast.Inspect(f, func(nd ast.Node) bool {
 				if nd == nil {
@@ -181,6 +191,12 @@ func normalise(pkgs []*packages.Package, overlay map[string][]byte, readFile fun
 			}
 		}
 		sort.Slice(cands, func(i, j int) bool { return cands[i].obj.Name() < cands[j].obj.Name() })
+		candSet := map[*types.Func]bool{}
+		for _, cd := range cands {
+			if helperInlinable(cd.decl) {
+				candSet[cd.obj] = true
+			}
+		}
 		for _, h := range cands {
 			name := h.obj.Name()
 			ok := helperInlinable(h.decl)
@@ -224,6 +240,25 @@ func normalise(pkgs []*packages.Package, overlay map[string][]byte, readFile fun
 							}
 						}
 						call, isCall := parent[fun].(*ast.CallExpr)
+						if isCall && call.Fun == fun.(ast.Expr) {
+							// an argument that is itself a call of another new helper: that one is expanded first, this one
+							// in the next round
+							nestedNew := false
+							for _, a := range call.Args {
+								ast.Inspect(a, func(x ast.Node) bool {
+									if xi, isI := x.(*ast.Ident); isI {
+										if fo, isF := pk.TypesInfo.Uses[xi].(*types.Func); isF && fo != h.obj && candSet[fo] {
+											nestedNew = true
+										}
+									}
+									return true
+								})
+							}
+							if nestedNew {
+								ok = false
+								return true
+							}
+						}
 						if !isCall || call.Fun != fun.(ast.Expr) {
 							// used as a value (a callback handed on): it becomes the function literal it stands for
 							st := n.valueSite(h, fun.(ast.Expr), fn)
